@@ -16,6 +16,17 @@
 (*   exceeds the smooth value and approaches it monotonically as the       *)
 (*   resolution doubles (series records); vertices of curved shapes lie on *)
 (*   the analytic surface (radius residual supplied in fixed point).       *)
+(* Added by the coverage audit:                                            *)
+(*   placed    a shape built with a lattice similarity M (signed           *)
+(*             permutation times num/den plus a translation), or a         *)
+(*             primitive after apply_transform(M), has the bounds, centre  *)
+(*             of mass, volume and area of M applied to the unplaced one   *)
+(*   segment   cylinders / annuli given by an axis segment                 *)
+(*   inertia   boxes exactly (V/12 (b^2 + c^2) in the placed frame);       *)
+(*             closed forms of the primitive classes against the smooth    *)
+(*             tensor and the inscribed tessellations growing towards it   *)
+(*   flat      exact bounds of unplaced prisms / boxes; perimeters of      *)
+(*             polygons with Pythagorean (integer length) slanted edges    *)
 (***************************************************************************)
 EXTENDS Integers, Sequences, FiniteSets, TLC, Json
 
@@ -39,24 +50,38 @@ Grow(F, R, n) == LET R2 == R \cup UNION {{F[k][1], F[k][2], F[k][3]} : k \in {k 
                  IN IF R2 = R \/ n = 0 THEN R ELSE Grow(F, R2, n - 1)
 Connected(F) == Len(F) = 0 \/ Grow(F, {F[1][1]}, Len(F)) = Verts(F)
 
+SetMin(S) == CHOOSE x \in S : \A y \in S : x <= y
+SetMax(S) == CHOOSE x \in S : \A y \in S : x >= y
+
 \* rectilinear polygon with holes: rings of integer points
 Nxt(c, k) == IF k = Len(c) THEN 1 ELSE k + 1
 RECURSIVE Shoe(_, _)
 Shoe(c, k) == IF k = 0 THEN 0 ELSE c[k][1] * c[Nxt(c, k)][2] - c[Nxt(c, k)][1] * c[k][2] + Shoe(c, k - 1)
 Area2(c) == Abs(Shoe(c, Len(c)))
 RECURSIVE PerimR(_, _)
+\* edges are axis-parallel or of integer length (3-4-5 ...): CHOOSE fails (machinery error) on any other input
+ISqrt(n) == CHOOSE r \in 0..n : r * r = n
+EdgeLen(dx, dy) == IF dx = 0 THEN Abs(dy) ELSE IF dy = 0 THEN Abs(dx) ELSE ISqrt(dx * dx + dy * dy)
 PerimR(c, k) == IF k = 0 THEN 0
-                ELSE Abs(c[k][1] - c[Nxt(c, k)][1]) + Abs(c[k][2] - c[Nxt(c, k)][2]) + PerimR(c, k - 1)   \* rectilinear
+                ELSE EdgeLen(c[k][1] - c[Nxt(c, k)][1], c[k][2] - c[Nxt(c, k)][2]) + PerimR(c, k - 1)
 Perim(c) == PerimR(c, Len(c))
 RECURSIVE SumA(_, _)
 SumA(rs, k) == IF k = 0 THEN 0 ELSE Area2(rs[k]) + SumA(rs, k - 1)
 RECURSIVE SumP(_, _)
 SumP(rs, k) == IF k = 0 THEN 0 ELSE Perim(rs[k]) + SumP(rs, k - 1)
 
+\* Every directed edge occurs once and so does its reverse.  For non-degenerate faces this is equivalent to
+\* Watertight /\ WindingOK (a third face on an undirected edge would repeat one of its two directions) and is
+\* evaluated in one pass; the quadratic definitions above only name the clause when it fails.
+ClosedOriented(F) == LET D == AllDir(F) IN Cardinality(D) = 3 * Len(F) /\ \A e \in D : <<e[2], e[1]>> \in D
+
 Solid(c) ==
+    LET co == ClosedOriented(c.faces) IN
     IF ~NonDegenerate(c.faces) THEN "degenerate_face"
-    ELSE IF ~Watertight(c.faces) THEN "watertight"
-    ELSE IF ~WindingOK(c.faces) THEN "winding_consistent"
+    \* no directed edge repeated but some reverse missing: that edge has a single face (cheap to see);
+    \* otherwise the quadratic definition decides which of the two clauses is named
+    ELSE IF ~co /\ (Cardinality(AllDir(c.faces)) = 3 * Len(c.faces) \/ ~Watertight(c.faces)) THEN "watertight"
+    ELSE IF ~co THEN "winding_consistent"
     ELSE IF c.bodies = 1 /\ ~Connected(c.faces) THEN "single_body"
     \* the statement does not mention the Euler number: it is demanded only where the genus is fixed by
     \* construction and no polygon triangulation engine is involved (c.genus = -1 switches it off)
@@ -71,8 +96,17 @@ Flat(c) ==
     LET A2 == Area2(c.shell) - SumA(c.holes, Len(c.holes))             \* twice the polygon area
         P == Perim(c.shell) + SumP(c.holes, Len(c.holes))
         h == Abs(c.height)
+        xs == {c.shell[k][1] : k \in 1..Len(c.shell)}
+        ys == {c.shell[k][2] : k \in 1..Len(c.shell)}
+        \* bkind "prism": unplaced extrusion over z in [0, height] (height may be negative);
+        \*       "box": centred box (doubled coordinates compared); "" : bounds not recorded
+        lo == IF c.bkind = "prism" THEN <<2 * SetMin(xs), 2 * SetMin(ys), 2 * SetMin({0, c.height})>>
+              ELSE <<-SetMax(xs), -SetMax(ys), -h>>
+        hi == IF c.bkind = "prism" THEN <<2 * SetMax(xs), 2 * SetMax(ys), 2 * SetMax({0, c.height})>>
+              ELSE <<SetMax(xs), SetMax(ys), h>>
     IN IF 2 * c.vol_fp # A2 * h * K THEN "analytic_volume"
        ELSE IF c.area_fp # (A2 + P * h) * K THEN "analytic_area"
+       ELSE IF c.bkind # "" /\ \E r \in 1..3 : 2 * c.bounds_fp[1][r] # lo[r] * K \/ 2 * c.bounds_fp[2][r] # hi[r] * K THEN "analytic_bounds"
        ELSE "ok"
 
 \* curved shapes: volumes of the inscribed tessellation at resolutions n, 2n, 4n (fixed point)
@@ -91,9 +125,64 @@ Series(c) ==
     ELSE IF c.has_analytic_area /\ Abs(c.analytic_area - c.smooth_area) > c.slack THEN "primitive_closed_form_area"
     ELSE "ok"
 
+
+\* ---------------------------------------------------------------- placement law
+\* c.M integer 3x3 (signed permutation times num), c.t integer translation numerators, c.den: the map is
+\* x |-> (M x + t) / den.  pre / post: [b |-> <<lo, hi>>, com, vol, area] in fixed point.
+MatVec(M, v) == [r \in 1..3 |-> M[r][1] * v[1] + M[r][2] * v[2] + M[r][3] * v[3]]
+Corners(b) == {<<b[x][1], b[y][2], b[z][3]>> : x \in 1..2, y \in 1..2, z \in 1..2}
+Img(c, p) == [r \in 1..3 |-> MatVec(c.M, p)[r] + c.t[r] * K]             \* den times the image
+Num(c) == Abs(c.M[1][1] + c.M[1][2] + c.M[1][3])
+Placed(c) ==
+    LET img == {Img(c, p) : p \in Corners(c.pre.b)}
+        lo == [r \in 1..3 |-> SetMin({q[r] : q \in img})]
+        hi == [r \in 1..3 |-> SetMax({q[r] : q \in img})]
+        cm == Img(c, c.pre.com)
+        n == Num(c)
+        d == c.den
+    IN IF \E r \in 1..3 : Abs(c.post.b[1][r] * d - lo[r]) > c.tol * d \/ Abs(c.post.b[2][r] * d - hi[r]) > c.tol * d THEN "placed_bounds"
+       ELSE IF \E r \in 1..3 : Abs(c.post.com[r] * d - cm[r]) > c.tol * d THEN "placed_center_mass"
+       ELSE IF c.post.vol <= 0 THEN "placed_positive_volume"
+       ELSE IF Abs(c.post.vol * d * d * d - c.pre.vol * n * n * n) > c.tol * (d * d * d + n * n * n) THEN "placed_volume"
+       ELSE IF Abs(c.post.area * d * d - c.pre.area * n * n) > c.tol * (d * d + n * n) THEN "placed_area"
+       ELSE "ok"
+
+\* cylinder / annulus given by its axis segment a -> b (integer points); axis = 0: not axis-parallel
+Segment(c) ==
+    IF ~c.solid THEN "segment_closed_surface"
+    ELSE IF \E r \in 1..3 : Abs(2 * c.com[r] - (c.a[r] + c.b[r]) * K) > 2 * c.tol THEN "segment_midpoint"
+    ELSE IF Abs(c.vol - c.ref_vol) > c.tol THEN "segment_volume"
+    ELSE IF c.axis = 0 THEN "ok"
+    ELSE IF Abs(c.bounds[1][c.axis] - SetMin({c.a[c.axis], c.b[c.axis]}) * K) > c.tol
+            \/ Abs(c.bounds[2][c.axis] - SetMax({c.a[c.axis], c.b[c.axis]}) * K) > c.tol THEN "segment_end_caps"
+    ELSE IF \E r \in (1..3) \ {c.axis} : \/ c.bounds[1][r] < c.a[r] * K - c.r_fp - c.tol
+                                          \/ c.bounds[2][r] > c.a[r] * K + c.r_fp + c.tol
+                                          \/ c.bounds[2][r] - c.bounds[1][r] < c.r_fp THEN "segment_radius"
+    ELSE "ok"
+
+\* inertia tensor (about the centre of mass, unit density), fixed point
+Trace(I) == I[1][1] + I[2][2] + I[3][3]
+BoxInertia(c) ==
+    LET e == c.extents
+        V == e[1] * e[2] * e[3]
+        \* twelve times the moment about local axis i; local axis i lies along world axis c.axes[i]
+        D == <<V * (e[2] * e[2] + e[3] * e[3]), V * (e[1] * e[1] + e[3] * e[3]), V * (e[1] * e[1] + e[2] * e[2])>>
+    IN IF \E a \in 1..3 : Abs(12 * c.I[c.axes[a]][c.axes[a]] - D[a] * K) > 12 * c.tol THEN "box_inertia_diagonal"
+       ELSE IF \E r \in 1..3, s \in 1..3 : r # s /\ Abs(c.I[r][s]) > c.tol THEN "box_inertia_products"
+       ELSE "ok"
+CurvedInertia(c) ==
+    IF c.has_analytic /\ \E r \in 1..3, s \in 1..3 : Abs(c.analytic[r][s] - c.smooth[r][s]) > c.slack THEN "primitive_closed_form_inertia"
+    ELSE IF \E k \in 1..(Len(c.tess) - 1) : Trace(c.tess[k]) >= Trace(c.tess[k + 1]) THEN "inertia_grows_with_resolution"
+    ELSE IF Trace(c.tess[Len(c.tess)]) > Trace(c.smooth) + c.slack THEN "inscribed_inertia_exceeds_smooth"
+    ELSE IF \E r \in 1..3, s \in 1..3 : Abs(c.tess[Len(c.tess)][r][s] - c.smooth[r][s]) > c.near THEN "inertia_approaches_smooth_value"
+    ELSE "ok"
+
 Clause(c) ==
     CASE c.rec = "solid" -> LET s == Solid(c) IN IF s # "ok" THEN s ELSE IF c.flat THEN Flat(c) ELSE "ok"
       [] c.rec = "series" -> Series(c)
+      [] c.rec = "placed" -> Placed(c)
+      [] c.rec = "segment" -> Segment(c)
+      [] c.rec = "inertia" -> IF c.mode = "box" THEN BoxInertia(c) ELSE CurvedInertia(c)
       [] OTHER -> "unknown_record"
 
 Init == i = 1
